@@ -373,7 +373,11 @@ func (it *kvIter) validT() *Term {
 func (in *Interp) settle(it *kvIter) bool {
 	for it.pos < len(it.items) {
 		c := it.items[it.pos]
-		if c.present == nil || in.E.Branch(c.present, "iter-presence") {
+		if c.present == nil {
+			return true
+		}
+		in.noSpec("iterator over cells with symbolic presence") // iterator state is not in the write log
+		if in.E.Branch(c.present, "iter-presence") {
 			return true
 		}
 		it.pos++
